@@ -34,7 +34,25 @@ ENGINES.append({"name": "JsPrint", "path": "coq/theories/Js/Print*.v + coq/gen/J
      "kind_free_text": "F2 Gallina model of the expression printer's parenthesis decisions, parametric in the precedence maps (regenerated from js/util.go); ECMA-262 expression grammar as derivation relation; harness/cmd/jsoracle (token correspondence, node vm oracle)"})
 ENGINES.append({"name": "CssVal", "path": "coq/theories/Css", "serves_properties": ["C04", "C16"],
      "kind_free_text": "F2 Gallina model of the four-sides shorthand rewrite + CSS 2.1 box semantics; harness/cmd/cssoracle (exhaustive box correspondence, independent CSS tokenizer/value interpreter as search oracle)"})
+ENGINES.append({"name": "Html", "path": "coq/theories/Html + coq/gen/Tables_gen.v", "serves_properties": ["C03", "C16", "C09"],
+     "kind_free_text": "F2 Gallina model of html.Minify's token loop on attribute-free documents (white-space state machine, pre/raw text, tag omission, document tags, Keep* options; traits regenerated from html/table.go) and F1 model of parse/html.EscapeAttrVal; rendered-words specification and the HTML tokenizer's attribute-value states; harness/cmd/htmloracle (token dump + x/net/html tree oracle, stub and real registries)"})
 CHECKS = {
+    "C03": {
+        "engine": "Html", "design_ref": "DESIGN.md section 4 / C03",
+        "technique": "Coq proof (white-space state machine keeps the rendered words, all token lists and options; attribute quoting reads back the same value, all values) + token correspondence against the real lexer and minifier; x/net/html tree comparison as search for tag omission, attribute rewriting, references and embedded content",
+        "text": ("Theorems (Props/C03.v): for every attribute-free token list satisfying wf_tokens and every option setting the output has the same block-level items "
+                 "and, run by run, exactly the same rendered words (no join, split or drop; pre/textarea/raw text unchanged); wf_tokens' three exclusions are each "
+                 "shown necessary by Coq counterexamples that reproduce on the real minifier, and a sound decision procedure reports how many real documents meet "
+                 "it (about 93%); for every non-empty attribute value, original quote and mustQuote, the HTML tokenizer reads back one value that decodes to the "
+                 "same text and ends where it should; quotes are dropped only when no byte needs them; KeepQuotes/KeepEndTags/KeepDocumentTags are honoured. "
+                 "Tie: the extracted loop must reproduce html.Minify's bytes on 3,000 generated documents per quick run from the real lexer's tokens, "
+                 "html_escape_attr_val must equal parse/html.EscapeAttrVal on 3,000 values, tag traits are regenerated from html/table.go. PARTIAL: whether omitted "
+                 "tags are re-inferred at the same place, attribute rewriting other than quoting, references in context, embedded content and template "
+                 "delimiters are decided by search only: 30,000 generated conforming documents per quick run x option sets x registries, both texts parsed by "
+                 "golang.org/x/net/html and compared as trees with typed attribute comparison; 16 open findings there (K16-K19, K30, K101-K113 except K103/K108)."),
+        "note": ("Partial. Trusted: Coq kernel, translator, extraction, driver, HtmlWsSpec.v as the meaning of 'same rendered words', x/net/html as the reference "
+                 "tree builder (its DOCTYPE-case quirk normalised); the parse/html lexer and parse.ReplaceMultipleWhitespaceAndEntities are run, not modelled."),
+    },
     "C04": {
         "engine": "CssVal", "design_ref": "DESIGN.md section 4 / C04",
         "technique": "Coq proof for the box shorthand (all value lists) and table facts over regenerated tables + exhaustive correspondence; independent CSS value interpreter as search for all other rewrites",
